@@ -1,0 +1,20 @@
+//go:build verif
+// +build verif
+
+// Contracts for the deductive verifier in /verif (govc). Comment-only: no executable code.
+package rest
+
+// (C20) For every kind the gateway serves, the status-subresource flag of the storage options agrees with the subStatus flag
+// of the strategy that serves the main resource: a kind with a status endpoint must have a main-resource strategy that
+// keeps the stored status (and clears it on create), a kind without one must not.
+// Assumed (package initialisation, not modelled): ClusterScopeStorageStrategySingleton = NewDefaultRESTStrategy(false, true),
+// whose flags are proved in pkg/registry.
+//@ func newUpstreamClusterOption props C20
+//@   requires [factory] factory != nil
+//@   requires [singleton_initialised] registry.ClusterScopeStorageStrategySingleton.subStatus && !registry.ClusterScopeStorageStrategySingleton.namespaced
+//@   modifies *
+//@   ensures [status_flags_agree] result1 == nil ==> (result.SubStatus <==> stratSubStatus(result.RESTStrategy))
+//@ func newRateLimitConditionOption props C20
+//@   requires [factory] factory != nil
+//@   modifies *
+//@   ensures [status_flags_agree] result1 == nil ==> (result.SubStatus <==> stratSubStatus(result.RESTStrategy))
